@@ -5,6 +5,7 @@ import ast
 from itertools import product
 
 from sa import cbor_mini
+from . import generic
 from sa.absint import Evaluator, all_effects
 from sa.index import AnalysisError
 from sa.teval import Unknown, lin_key, lin_sub, linear, teval
@@ -36,6 +37,7 @@ def bstr_header_width(b: int):
 
 def run(ctx):
     R = ctx.report
+    generic.cli_converters(ctx, "C10-D4b CLI converters", "suit_generator.cmd_cache_create", 3)
     repo = ctx.repo
     ctx.use_files("suit_generator/cmd_cache_create.py")
     ev0 = Evaluator(repo, inline_depth=0)
